@@ -847,4 +847,119 @@ theorem perCid_of_perm {d a : List Call} (h : a.Perm d) (hn : (d.map Call.cid).N
     subst ht
     rw [List.perm_singleton.1 hp]
 
+/-! ### synchronous hand-off: the tracker receives the applied entries in log order -/
+
+theorem sentFor_zero (ops : List Op) (a : Nat) : sentFor ops a 0 = [] := by
+  simp [sentFor]
+
+theorem sentFor_one {ops : List Op} {a : Nat} {op : Op} (h : ops[a]? = some op) : sentFor ops a 1 = [callOf op] := by
+  obtain ⟨hlt, hget⟩ := List.getElem?_eq_some_iff.1 h
+  unfold sentFor
+  rw [List.drop_eq_getElem_cons hlt, hget]
+  simp
+
+theorem sentFor_add (ops : List Op) (a k k' : Nat) :
+    sentFor ops a (k + k') = sentFor ops a k ++ sentFor ops (a + k) k' := by
+  unfold sentFor
+  rw [List.take_add, List.map_append, List.drop_drop]
+
+theorem step_other {ops : List Op} {s : Sys} {i j : Nat} (e : Ev) (h : j ≠ i) :
+    (step ops s j e).1[i]? = s[i]? := by
+  unfold step
+  cases hj : s[j]? with
+  | none => rfl
+  | some r =>
+    dsimp only
+    rw [List.getElem?_set_ne h]
+
+theorem step_out {ops : List Op} {s : Sys} {i : Nat} {r : Replica} (hr : s[i]? = some r) (e : Ev) :
+    (step ops s i e).2 = (stepR ops r (srcSnapOf s e) e).2 := by
+  unfold step
+  rw [hr]
+
+/-- one event on a peer that neither restarts it nor installs a snapshot: its Raft advances by `k ≤ 1`
+    entries and the tracker has received exactly the calls of those entries when the event is over -/
+theorem stepR_calls {ops : List Op} (hdec : allDecodable ops) {r : Replica} (h : RInv false ops r)
+    (src : Option Snap) (e : Ev) (hne : e.isReset = false) :
+    ∃ k, (stepR ops r src e).1.applied = r.applied + k ∧ (stepR ops r src e).2.calls = sentFor ops r.applied k := by
+  cases e with
+  | apply =>
+    unfold stepR
+    dsimp only
+    by_cases hup : (!r.up) = true
+    · rw [if_pos hup]; exact ⟨0, rfl, (sentFor_zero _ _).symm⟩
+    · rw [if_neg hup]
+      cases hop : ops[r.applied]? with
+      | none => exact ⟨0, rfl, (sentFor_zero _ _).symm⟩
+      | some op =>
+        have hd : op.decodable = true := hdec op (List.mem_of_getElem? hop)
+        simp only [hd, Bool.not_true, Bool.false_eq_true, if_false, h.poison, Bool.false_and]
+        exact ⟨1, rfl, (sentFor_one hop).symm⟩
+  | snapBegin =>
+    refine ⟨0, ?_, ?_⟩
+    · unfold stepR; dsimp only
+      split
+      · rfl
+      · split <;> rfl
+    · rw [sentFor_zero]
+      by_contra hc
+      exact absurd (no_other_calls_core ops r src _ hc).1 (by intro h'; cases h')
+  | snapPersist =>
+    refine ⟨0, ?_, ?_⟩
+    · unfold stepR; dsimp only
+      split
+      · rfl
+      · split <;> rfl
+    · rw [sentFor_zero]
+      by_contra hc
+      exact absurd (no_other_calls_core ops r src _ hc).1 (by intro h'; cases h')
+  | install j => cases hne
+  | shutdown =>
+    refine ⟨0, ?_, ?_⟩
+    · unfold stepR; dsimp only
+      split
+      · rfl
+      · split <;> rfl
+    · rw [sentFor_zero]
+      by_contra hc
+      exact absurd (no_other_calls_core ops r src _ hc).1 (by intro h'; cases h')
+  | kill =>
+    refine ⟨0, ?_, ?_⟩
+    · unfold stepR; dsimp only
+      split <;> rfl
+    · rw [sentFor_zero]
+      by_contra hc
+      exact absurd (no_other_calls_core ops r src _ hc).1 (by intro h'; cases h')
+  | restart => cases hne
+  | offline => exact ⟨0, rfl, (sentFor_zero _ _).symm⟩
+
+theorem callsAt_spec {ops : List Op} (hdec : allDecodable ops) (i : Nat) (evs : List (Nat × Ev)) {s : Sys}
+    (hs : SInv false ops s) (hq : noReset i evs = true) {r : Replica} (hr : s[i]? = some r) :
+    ∃ k r', (run ops s evs)[i]? = some r' ∧ r'.applied = r.applied + k ∧
+      callsAt ops i s evs = sentFor ops r.applied k := by
+  induction evs generalizing s r with
+  | nil => exact ⟨0, r, hr, rfl, (sentFor_zero _ _).symm⟩
+  | cons je rest ih =>
+    obtain ⟨j, e⟩ := je
+    have hq' : (!(j == i && e.isReset)) = true ∧ noReset i rest = true := by
+      unfold noReset at hq
+      rw [List.all_cons, Bool.and_eq_true] at hq
+      exact hq
+    have hs' : SInv false ops (step ops s j e).1 := step_inv hdec hs j e (by intro hx; cases hx)
+    rw [run_cons]
+    unfold callsAt
+    by_cases hji : j = i
+    · subst hji
+      have hne : e.isReset = false := by
+        have := hq'.1
+        simpa using this
+      obtain ⟨k0, ha0, hc0⟩ := stepR_calls hdec (hs r (List.mem_of_getElem? hr)) (srcSnapOf s e) e hne
+      obtain ⟨k', r', h1, h2, h3⟩ := ih hs' hq'.2 (step_at (ops := ops) hr e)
+      refine ⟨k0 + k', r', h1, ?_, ?_⟩
+      · rw [h2, ha0]; omega
+      · rw [if_pos rfl, step_out hr e, hc0, h3, ha0, sentFor_add]
+    · obtain ⟨k', r', h1, h2, h3⟩ := ih hs' hq'.2 (by rw [step_other e hji]; exact hr)
+      refine ⟨k', r', h1, h2, ?_⟩
+      rw [if_neg hji, List.nil_append, h3]
+
 end CV.C01
